@@ -22,7 +22,8 @@ ALL = ['C%02d' % i for i in range(1, 21)]
 FILES = ['src/sync/mutex.rs', 'src/sync/semaphore.rs', 'src/sync/manual_reset_event.rs', 'src/channel/mpmc.rs',
          'src/channel/oneshot.rs', 'src/channel/oneshot_broadcast.rs', 'src/channel/state_broadcast.rs',
          'src/channel/channel_future.rs', 'src/timer/timer.rs', 'src/buffer/ring_buffer.rs',
-         'src/intrusive_double_linked_list.rs', 'src/intrusive_pairing_heap.rs', 'src/utils/mod.rs']
+         'src/intrusive_double_linked_list.rs', 'src/intrusive_pairing_heap.rs', 'src/utils/mod.rs',
+         'src/channel/error.rs', 'src/timer/clock.rs']
 
 OPS = [
     ('>=', '>'), ('<=', '<'), (' > ', ' >= '), (' < ', ' <= '), ('==', '!='), ('!=', '=='), ('&&', '||'), ('||', '&&'),
@@ -31,6 +32,22 @@ OPS = [
     ('+= 1', '+= 2'), ('-= 1', '-= 0'), ('.take()', '.clone()'), ('Poll::Pending', 'Poll::Ready(())'),
     ('Ordering::Release) != 1', 'Ordering::Release) != 2'), ('saturating_add', 'wrapping_add'),
     ('is_ready()', 'is_pending()'),
+    # second generation: variant, queue and status swaps
+    ('PollState::Waiting', 'PollState::Notified'), ('PollState::Notified', 'PollState::Waiting'),
+    ('PollState::Done', 'PollState::New'), ('PollState::New', 'PollState::Done'),
+    ('PollState::Registered', 'PollState::Unregistered'), ('PollState::Unregistered', 'PollState::Registered'),
+    ('RecvPollState::Notified', 'RecvPollState::Unregistered'), ('SendPollState::SendComplete', 'SendPollState::Unregistered'),
+    ('PollState::Expired', 'PollState::Unregistered'),
+    ('send_waiters', 'receive_waiters'), ('receive_waiters', 'send_waiters'),
+    ('remove_first', 'remove_last'), ('peek_first', 'peek_last'),
+    ('fetch_sub', 'fetch_add'), ('fetch_add', 'fetch_sub'),
+    ('Poll::Ready(())', 'Poll::Pending'),
+    ('NewlyClosed', 'AlreadyClosed'), ('AlreadyClosed', 'NewlyClosed'),
+    ('TrySendError::Full', 'TrySendError::Closed'), ('TrySendError::Closed', 'TrySendError::Full'),
+    ('TryReceiveError::Empty', 'TryReceiveError::Closed'), ('TryReceiveError::Closed', 'TryReceiveError::Empty'),
+    (' == 0', ' == 1'), (' > 0', ' > 1'), ('.senders', '.receivers'), ('.receivers', '.senders'),
+    ('wake_recv_waiters', 'wake_send_waiters'), ('return_oldest_receive_waiter', 'return_oldest_send_waiter'),
+    ('.prev', '.next'), ('.next', '.prev'), ('head', 'tail'), ('first_child', 'next'),
 ]
 
 
